@@ -66,7 +66,7 @@ func Harness_C10_resolve_not_called() {
 // C09 excl_other_key: key A's work parks forever; a call on key B must still finish.
 func Harness_C09_excl_other_key() {
 	var e Exclusive
-	verifDaemon("call$1") // A's runner stays parked by construction; B's completion is asserted explicitly
+	verifDaemon(".call$1") // A's runner stays parked by construction; B's completion is asserted explicitly
 	block := make(chan struct{})
 	e.Start("A", func() (interface{}, error) { <-block; return nil, nil })
 	bDone := false
